@@ -448,6 +448,32 @@ def run(ctx):
                 % (short(g.qual), short(w), fmt(n2)[:60] if isinstance(n2, dict) else ""), (g, n2.get("ln") if isinstance(n2, dict) else None))
     if not uw:
         ctx.ok("R15.11", usage, "usage-writes-nothing", "no member of the option classes is written on the usage path", usage)
+    # ---- R15.12: what an option prints is what it was declared with
+    ctx.rule("R15.12", "the texts an option prints (its name and description) are set when it is constructed: no function of parser / group - a repeated request for the same name, "
+                       "a lookup, parse, usage - reaches a write of base::name_ / base::description_ on an existing option")
+    TEXTS = (NS + "base::description_", NS + "base::name_")
+    nscan = 0
+    for g0 in sorted(prog.fns.values(), key=lambda x: x.id):
+        if not g0.has_cfg or g0.cls not in (NS + "group", NS + "parser") or g0.kind in ("ctor", "dtor") or not g0.file.startswith("/repo/"):
+            continue
+        nscan += 1
+        hit = None
+        for fid in sorted(cg.reachable([g0.id])):
+            h = prog.fn(fid)
+            if h is None or not h.has_cfg or h.kind in ("ctor", "dtor") or not h.file.startswith("/repo/"):
+                continue
+            for (w, base, n2, b2, i2, how) in cg.field_writes(h):
+                # (a setter spliced into its caller by the normalisation pass writes through the element, not through `this`)
+                if w in TEXTS and how == "write":
+                    hit = (h, w, n2)
+                    break
+            if hit:
+                break
+        if hit:
+            ctx.bad("R15.12", g0, "declared-texts-kept:%s" % short(g0.qual), "%s reaches %s, which overwrites %s of an option that already exists (`%s`): the usage text no longer shows what was declared"
+                    % (short(g0.qual), short(hit[0].qual), short(hit[1]), fmt(hit[2])[:50] if isinstance(hit[2], dict) else ""), (hit[0], hit[2].get("ln") if isinstance(hit[2], dict) else None))
+    ctx.ok("R15.12", NS + "group", "declared-texts-kept", "%d functions of parser / group scanned, none reaches a write of an option's name or description" % nscan, "-") if nscan else None
+    ctx.need("R15.12", "functions of parser / group scanned", nscan, 20)
     # ---- R15.10: usage() returns its stream: no standard-library precondition failure (erase / substr / at beyond the end) can throw
     # out of it for some declaration (an empty default list, an empty description, a one-letter name)
     ctx.rule("R15.10", "every std thrower (substr / erase / at / compare ...) reachable from usage() is discharged by the facts of its calling contexts: the text is produced for every declaration")
